@@ -125,6 +125,8 @@ class Det:
     * `collect_asset_docs(index)` yields, the first time, one stream_resource per data key, then for
       every data key one stream_datum with indices [last_reported, index) when index > last_reported,
       and remembers `index` as last_reported.  `index=None` means "up to my own current index".
+      (A scripted misbehaviour forces datums even when index <= last_reported; their range is then the
+      empty range at last_reported, never a reversed one: ranges are naturals in the Lean model.)
 
     `misbehave` lets the harness script contract violations for single collects (malformed stream):
       {"width": d}    report a range wider by d for the 2nd data key
@@ -202,7 +204,7 @@ class Det:
                 yield self._resource(k)
         if index > self.last or mis:
             for i, k in enumerate(self.keys):
-                stop = index + (mis.get("width", 0) if i == len(self.keys) - 1 else 0)
+                stop = max(index, self.last) + (mis.get("width", 0) if i == len(self.keys) - 1 else 0)
                 self.ndatum += 1
                 yield (
                     "stream_datum",
